@@ -10,6 +10,7 @@ import OxiaVerif.Model.Shard
 import OxiaVerif.Model.Select
 import OxiaVerif.Model.Batch
 import OxiaVerif.Model.Ack
+import OxiaVerif.Model.Session
 
 /-! Line-protocol dispatch: one operation line in, one output line out. -/
 namespace Oxia.Driver
@@ -26,6 +27,7 @@ structure State where
   client : List Shard.Shard := []
   tracker : Ack.Tracker := Ack.Tracker.new 1 (-1) (-1)
   trackerSet : Bool := false
+  sess : Session.SS := Session.SS.init
 
 def State.init : State := {}
 
@@ -557,6 +559,67 @@ def stepAck (st : State) (toks : List String) : State × String :=
     (st, "ok=" ++ toString p.appended.length ++ " failed=" ++ toString p.failed.length)
   | _ => (st, "bad-op")
 
+def showSessStatus : Session.Status → String
+  | .ok => "ok" | .keyNotFound => "key-not-found" | .sessionDoesNotExist => "session-does-not-exist"
+
+def parseSid (t : String) : Option (Option Int) := if t == "_" then some none else t.toInt?.map some
+
+def sessDump (s : Session.SS) : String :=
+  let recs := sortBy (fun (a b : String) => a ≤ b) (s.recs.map fun r => Hex.encode r.1 ++ ":" ++ (match r.2 with | some o => toString o | none => "_"))
+  let sessions := sortBy (fun (a b : Int) => a ≤ b) (s.sessions.map (·.1))
+  let shadows := sortBy (fun (a b : Int × String) => a.1 < b.1 || (a.1 == b.1 && a.2 ≤ b.2)) (s.shadows.map fun x => (x.1, Hex.encode x.2))
+  let timers := sortBy (fun (a b : Int) => a ≤ b) (s.timers.map (·.1))
+  "recs=" ++ String.intercalate "," recs ++ " sessions=" ++ String.intercalate "," (sessions.map toString) ++
+    " shadows=" ++ String.intercalate "," (shadows.map fun x => toString x.1 ++ ":" ++ x.2) ++
+    " timers=" ++ String.intercalate "," (timers.map toString)
+
+def stepSess (st : State) (toks : List String) : State × String :=
+  let s := st.sess
+  let sf := Facts.sessionShadowPutBeforeDelete
+  match toks with
+  | ["s.put", k, sid] =>
+    match Hex.decode k, parseSid sid with
+    | some k, some sid => let r := Session.put sf s k sid; ({ st with sess := r.1 }, showSessStatus r.2)
+    | _, _ => (st, "bad-op")
+  | ["s.del", k] =>
+    match Hex.decode k with
+    | some k => let r := Session.delete s k; ({ st with sess := r.1 }, showSessStatus r.2)
+    | none => (st, "bad-op")
+  | ["s.delrange", lo, hi] =>
+    match Hex.decode lo, Hex.decode hi with
+    | some lo, some hi => ({ st with sess := Session.deleteRange s lo hi }, "ok")
+    | _, _ => (st, "bad-op")
+  | ["s.create", t] =>
+    match t.toNat? with
+    | some t => let r := Session.createSession s t; ({ st with sess := r.1 }, "sid=" ++ toString r.2)
+    | none => (st, "bad-op")
+  | ["s.keepalive", sid] =>
+    match sid.toInt? with
+    | some sid => let r := Session.keepAlive s sid; ({ st with sess := r.1 }, if r.2 then "ok" else "not-found")
+    | none => (st, "bad-op")
+  | ["s.close", sid] =>
+    match sid.toInt? with
+    | some sid =>
+      if s.timers.any (·.1 = sid) then ({ st with sess := Session.endSession s sid }, "ok") else (st, "not-found")
+    | none => (st, "bad-op")
+  | ["s.closerace", sid, k, sid2] =>
+    match sid.toInt?, Hex.decode k, parseSid sid2 with
+    | some sid, some k, some sid2 =>
+      if s.timers.any (·.1 = sid) then
+        let listed := Session.listOwned s sid
+        let r := Session.put sf s k sid2
+        let s2 := Session.cleanupWrite r.1 sid listed
+        ({ st with sess := { s2 with timers := s2.timers.filter (·.1 ≠ sid) } }, "ok put=" ++ showSessStatus r.2)
+      else (st, "not-found")
+    | _, _, _ => (st, "bad-op")
+  | ["s.advance", dt] =>
+    match dt.toNat? with
+    | some dt => ({ st with sess := Session.advance s dt }, "ok")
+    | none => (st, "bad-op")
+  | ["s.leaderchange"] => ({ st with sess := Session.leaderChange s }, "ok")
+  | ["s.dump"] => (st, sessDump s)
+  | _ => (st, "bad-op")
+
 def step (st : State) (line : String) : State × String :=
   let toks := (line.splitOn " ").filter (· ≠ "")
   match toks with
@@ -570,6 +633,7 @@ def step (st : State) (line : String) : State × String :=
     else if t.startsWith "db." || t.startsWith "idx." then stepDb st toks
     else if t.startsWith "sh." || t.startsWith "cs." || t.startsWith "cl." then stepShard st toks
     else if t.startsWith "sel." then stepSelect st toks
+    else if t.startsWith "s." then stepSess st toks
     else if t.startsWith "q." || t.startsWith "lc." then stepAck st toks
     else if t.startsWith "b." || t.startsWith "wb." || t.startsWith "rb." || t.startsWith "mg." || t.startsWith "km." then stepBatch st toks
     else (st, "bad-op")
